@@ -551,6 +551,23 @@ func published(t *syntax.RegexTree, code *syntax.Code) (sets []pubSet, prefixes 
 		case syntax.LeadingStrings_LeftToRight:
 			prefixes = append(prefixes, pubPrefix{name: "LeadingPrefixes", E: fo.LeadingPrefixesRunes,
 				R: func(x, t rune) bool { return x == t }})
+			if first := fo.LeadingPrefixFirstRunes; len(first) > 0 {
+				// findLeadingStringsLeftToRight jumps between occurrences of these runes (case-sensitive mode only)
+				sets = append(sets, pubSet{name: "LeadingPrefixFirstRunes", k: 0, desc: fmt.Sprintf("%q", string(first)),
+					in: func(r rune) bool {
+						for _, c := range first {
+							if c == r {
+								return true
+							}
+						}
+						return false
+					},
+					bounds: func(p *pointSet) {
+						for _, c := range first {
+							p.add(c)
+						}
+					}})
+			}
 		case syntax.LeadingStrings_OrdinalIgnoreCase_LeftToRight:
 			prefixes = append(prefixes, pubPrefix{name: "LeadingPrefixes(ci)", E: fo.LeadingPrefixesRunes, lower: true,
 				R: func(x, t rune) bool { return t == x || unicode.ToLower(t) == x }}) // helpers.StartsWithIgnoreCase
@@ -630,6 +647,9 @@ var setsCorpus = func() []setsCase {
 		{Pattern: `\w+@`, Text: []rune("ab@")},
 		{Pattern: `(?(1)\1|a)b|c`, Text: []rune("ab")},
 		{Pattern: `[^a]b|cd`, Text: []rune("xb")},
+		{Pattern: `(?:y||[^\x{1F600}])b`, Text: []rune("\U0001F601b")},
+		{Pattern: `(?:|\D)[^\x{1F600}]aab$`, Text: []rune("\U0001FBF0aab")},
+		{Pattern: `(?:|x)[^\x{FFFF}]b`, Text: []rune("\U0001F601b")},
 	} {
 		e.Seed, e.Source = 1, "corpus"
 		out = append(out, e)
@@ -772,7 +792,11 @@ func c04SetsCheck(c *core.Ctx, cases []setsCase) []core.Outcome {
 		}
 		gt := gen.FromGoTree(t)
 		if gt.Unsupported != "" {
-			o.Buckets = append(o.Buckets, "tree-unsupported:"+strings.SplitN(gt.Unsupported, " ", 2)[0])
+			why := strings.SplitN(gt.Unsupported, " ", 2)[0]
+			if why == "node" {
+				why = strings.ReplaceAll(gt.Unsupported, " ", "-")
+			}
+			o.Buckets = append(o.Buckets, "tree-unsupported:"+why)
 			continue
 		}
 		rtl := t.Options&syntax.RightToLeft != 0
@@ -904,7 +928,7 @@ func c04SetsCompare(c *core.Ctx, cs *setsCase, pp *setsPrepared, answer string, 
 				witnesses = append(witnesses, r)
 			}
 		}
-		if c.Thorough() && n%25 == 0 {
+		if c.Thorough() && n%100 == 0 {
 			// the boundary-point method against a sweep of the whole domain
 			found := false
 			for r := rune(0); r <= unicode.MaxRune; r++ {
@@ -1160,7 +1184,7 @@ func c04RegisterSets(c *core.Ctx) {
 	g := &setsGen{}
 	core.RunLeg(c, core.Leg[setsCase]{
 		Name: "V", Kind: "correspondence(proved validator)+oracle",
-		Rule: "patterns: the minimised witnesses of every engine defect (both with and without the code-gen analyses) and hand-made shapes, then random full-syntax ASTs (60% the shapes the search modes recognise, 20% the shapes the rewrites look for, 20% unbiased) and harvested patterns, random option sets, code-gen analyses on for half. Each pattern is parsed by syntax.Parse; every published set-valued fact is collected: FixedDistanceSets (the CharSet and, left-to-right, the runner's effective test Chars/Range/Negated; right-to-left the Chars list), FixedDistanceChar, FixedDistanceString (one singleton per rune), LeadingChar right-to-left, FcPrefix, LeadingPrefix (case-sensitive and ordinal-ignore-case), LeadingPrefixes (both). The engine's own tree is converted by gen.FromGoTree and sent to the Lean driver, which returns the proved over-approximations firstSet / setAt k / prefixes of the pattern and of the body of a leading positive lookahead. Check, rune-exact: the intersection of the Lean candidates for the offset is included in the published test, decided on the boundary points (every range end, single rune and Unicode-category transition of either side, ±1; thorough tier: every 25th case also by a sweep of all 1114112 runes, which must agree); a published string list must cover one Lean list under the comparison the runner uses. Theorems published_first_sound / published_set_sound / published_prefixes_sound turn a passed check into soundness of the fact. A failed check starts a search (pattern-directed inputs, every attempt position, each rejected rune forced at the offset of a matching input) for a real match (single-position attempt hook) that contradicts the fact: found → impl-violation with that input; not found → correspondence-break. non-trivial = something set-valued was published and the tree converted",
+		Rule: "patterns: the minimised witnesses of every engine defect (both with and without the code-gen analyses) and hand-made shapes, then random full-syntax ASTs (60% the shapes the search modes recognise, 20% the shapes the rewrites look for, 20% unbiased) and harvested patterns, random option sets, code-gen analyses on for half. Each pattern is parsed by syntax.Parse; every published set-valued fact is collected: FixedDistanceSets (the CharSet and, left-to-right, the runner's effective test Chars/Range/Negated; right-to-left the Chars list), FixedDistanceChar, FixedDistanceString (one singleton per rune), LeadingChar right-to-left, FcPrefix, LeadingPrefix (case-sensitive and ordinal-ignore-case: one test per position), LeadingPrefixes (both) and LeadingPrefixFirstRunes. The engine's own tree is converted by gen.FromGoTree and sent to the Lean driver, which returns the proved over-approximations firstSet / setAt k / prefixes of the pattern and of the body of a leading positive lookahead. Check, rune-exact: the intersection of the Lean candidates for the offset is included in the published test, decided on the boundary points (every range end, single rune and Unicode-category transition of either side, ±1; thorough tier: every 100th case also by a sweep of all 1114112 runes, which must agree); a published string list must cover one Lean list under the comparison the runner uses. Theorems published_first_sound / published_set_sound / published_prefixes_sound turn a passed check into soundness of the fact. A failed check starts a search (pattern-directed inputs, every attempt position, each rejected rune forced at the offset of a matching input) for a real match (single-position attempt hook) that contradicts the fact: found → impl-violation with that input; not found → correspondence-break. non-trivial = something set-valued was published and the tree converted",
 		N: c.N(6000, 150000), Corpus: setsCorpus, Gen: g.next, Check: c04SetsCheck, Batch: 1000,
 	})
 }
